@@ -2,6 +2,443 @@
 
 package main
 
-import "github.com/theparanoids/ysshra/internal/zzverif/ev"
+import (
+	"bytes"
+	"crypto/sha256"
+	"fmt"
+	"runtime"
+	"strings"
 
-func checkC10(c *ev.Ctx) { c.Cap("not implemented") }
+	"golang.org/x/crypto/ssh/agent"
+
+	"github.com/theparanoids/ysshra/internal/zzverif/bfs"
+	"github.com/theparanoids/ysshra/internal/zzverif/ev"
+	"github.com/theparanoids/ysshra/internal/zzverif/uagent"
+)
+
+// c10World: real shim W over underlying agent UA; D is a twin underlying agent on which the harness performs the same
+// Add/Remove/RemoveAll/Sign *directly* (pass-through oracle) as long as no fault has been consumed.
+type c10World struct {
+	w          *shimWorld
+	d          *uagent.Keyring
+	dOK        bool
+	faultsUsed int
+	maxFaults  int
+	thorough   bool
+	c          *ev.Ctx
+}
+
+var c10Bodies = map[string][]byte{
+	"empty":   {},
+	"one":     {0xc8},
+	"unknown": append([]byte{0xc9}, []byte("unknown request body")...),
+	"ext":     append([]byte{27, 0, 0, 0, 4}, []byte("x@y!payload")...),
+	"big":     append([]byte{0xca}, bytes.Repeat([]byte{0x5a}, 64<<10)...),
+}
+
+func c10Raw(frame []byte) ([]byte, bool) {
+	if len(frame) == 0 {
+		return []byte{5}, true
+	}
+	if frame[0] >= 0xc8 || frame[0] == 27 {
+		h := sha256.Sum256(frame)
+		return append([]byte{0xee}, h[:]...), true
+	}
+	return nil, false
+}
+
+func newC10World(c *ev.Ctx, root string) bfs.World {
+	parts := strings.Split(root, ":")
+	noUp := parts[0] == "noup"
+	var init []string
+	if len(parts) > 1 && parts[1] != "" {
+		init = strings.Split(parts[1], ",")
+	}
+	x := &c10World{d: &uagent.Keyring{}, dOK: true, maxFaults: 1, thorough: c.Thorough(), c: c}
+	if c.Thorough() {
+		x.maxFaults = 2
+	}
+	prep := func(ua *uagent.Agent) {
+		ua.Raw = c10Raw
+		if len(parts) > 2 && strings.HasPrefix(parts[2], "fault=") {
+			ua.Plan[0] = strings.TrimPrefix(parts[2], "fault=")
+			x.faultsUsed++
+			x.dOK = false
+		}
+	}
+	x.w = newShimWorld(noUp, init, prep)
+	for _, n := range init {
+		id := idents[n]
+		x.d.Add(agent.AddedKey{PrivateKey: id.priv, Certificate: id.cert, Comment: "c-" + n})
+	}
+	return x
+}
+
+func (x *c10World) Close() { x.w.Close() }
+
+// Init checks construction: a failure of the underlying agent while the shim is being built must surface as an error.
+func (x *c10World) Init() (fs []bfs.Finding) {
+	w := x.w
+	faulted := ""
+	for _, q := range w.ua.Log {
+		if q.Fault != "" {
+			faulted = q.Fault
+		}
+	}
+	x.c.Outcome(fmt.Sprintf("New/noup=%v/fault=%s/%s", w.noUp, faulted, errClass(w.newErr)))
+	if faulted != "" {
+		x.c.Nontrivial("construction|" + faulted)
+	}
+	if w.newPan != "" {
+		return []bfs.Finding{{Key: "C10:construction:panic:" + ev.PanicSite(w.newPan), Desc: fmt.Sprintf("shimagent.New(NoUpstream=%v) crashed when the underlying agent answered the first request with %q:\n%s", w.noUp, faulted, w.newPan)}}
+	}
+	if faulted != "" && w.newErr == nil {
+		return []bfs.Finding{{Key: "C10:construction:fault-swallowed", Desc: "shimagent.New succeeded although the underlying agent failed (" + faulted + ") during construction"}}
+	}
+	if faulted == "" && w.newErr != nil {
+		return []bfs.Finding{{Key: "C10:construction:fails-without-fault", Desc: "shimagent.New failed: " + w.newErr.Error()}}
+	}
+	return nil
+}
+func (x *c10World) Key() string {
+	return fmt.Sprintf("%s|D=%s|dOK=%v|faults=%d|newpanic=%v", x.w.baseKey(), x.d.Canon(nameOf), x.dOK, x.faultsUsed, x.w.newPan != "")
+}
+
+func (x *c10World) Enabled() []bfs.Op {
+	if x.w.shim == nil || x.w.newPan != "" {
+		return nil
+	}
+	var ops []bfs.Op
+	o := func(n string, args ...string) {
+		for _, a := range args {
+			ops = append(ops, bfs.Op{Name: n, Arg: a})
+		}
+	}
+	ops = append(ops, bfs.Op{Name: "List"}, bfs.Op{Name: "Signers"})
+	o("AddHardCert", "h1", "h2", "hrsa", "K2", "h3", "h1free")
+	o("AddHardCertAsAgentKey", "h1")
+	o("Add", "K2", "c2.cur", "Krsa")
+	o("Sign", "h1", "K1", "c.cur", "hrsa", "h2", "K3", "Krsa")
+	o("SignViaSigners", "h1", "K1")
+	o("Remove", "h1", "K1", "c.cur", "K3")
+	ops = append(ops, bfs.Op{Name: "RemoveAll"})
+	o("Forward", "unknown", "empty", "one", "ext", "big")
+	if x.faultsUsed < x.maxFaults && len(x.w.ua.Plan) == 0 {
+		for _, k := range uagent.AllFaults {
+			ops = append(ops, bfs.Op{Name: "FaultAt", Arg: k, Arg2: "0"}, bfs.Op{Name: "FaultAt", Arg: k, Arg2: "1"})
+			if x.thorough {
+				ops = append(ops, bfs.Op{Name: "FaultAt", Arg: k, Arg2: "2"})
+			}
+		}
+	}
+	return ops
+}
+
+func (x *c10World) wantListing() map[string]int {
+	want := map[string]int{}
+	for _, b := range x.w.memBlobs() {
+		want[string(b)]++
+	}
+	for _, b := range x.w.uaBlobs() {
+		if x.w.noUp && hidden(identsBy[string(b)]) {
+			continue
+		}
+		want[string(b)]++
+	}
+	return want
+}
+
+func (x *c10World) Apply(op bfs.Op) (fs []bfs.Finding) {
+	add := func(key, desc string) { fs = append(fs, bfs.Finding{Key: "C10:" + key, Desc: desc}) }
+	w := x.w
+	if w.shim == nil || w.newPan != "" {
+		return
+	}
+	if op.Name == "FaultAt" {
+		w.exec(op)
+		x.faultsUsed++
+		return
+	}
+	id := idents[op.Arg]
+	memBefore := w.memBlobs()
+	memSetBefore := setOf(memBefore)
+	uaCanonBefore := w.ua.Ring.Canon(nameOf)
+	logBefore := len(w.ua.Log)
+	listedPlain := map[string]bool{} // plain keys the underlying agent lists right now
+	for _, k := range w.ua.Ring.Keys {
+		if i := identsBy[string(k.Blob)]; i != nil && i.cert == nil {
+			listedPlain[string(k.Blob)] = true
+		}
+	}
+	if op.Name == "Forward" {
+		return x.applyForward(op, memSetBefore)
+	}
+	var r opResult
+	real := op
+	if op.Name == "SignViaSigners" {
+		r = w.exec(bfs.Op{Name: "Signers"})
+		if r.err == nil && r.panic == "" {
+			found := false
+			for _, s := range r.signers {
+				if bytes.Equal(s.PublicKey().Marshal(), id.blob) {
+					found = true
+					r.data = []byte("signed through the signer object")
+					r.panic = ev.Guard(func() { r.sig, r.err = s.Sign(nil, r.data) })
+					break
+				}
+			}
+			if !found {
+				r.err = fmt.Errorf("no signer for %s", op.Arg)
+			}
+		}
+		real.Name = "Sign"
+	} else {
+		r = w.exec(op)
+	}
+	// which faults fired during this operation?
+	faulted := ""
+	for _, q := range w.ua.Log[logBefore:] {
+		if q.Fault != "" {
+			faulted = q.Fault
+		}
+	}
+	if faulted != "" {
+		x.dOK = false
+		x.c.Nontrivial(fmt.Sprintf("fault|%s|%s|%s|%d", faulted, op.Name, op.Arg, len(w.ua.Log)-logBefore))
+		x.c.Count("operations_hit_by_a_fault", 1)
+	}
+	x.c.Outcome(fmt.Sprintf("%s/fault=%s/%s", real.Name, faulted, errClass(r.err)))
+	if r.panic != "" {
+		add("panic:"+ev.PanicSite(r.panic), fmt.Sprintf("%s(%s) crashed (fault=%q):\n%s", op.Name, op.Arg, faulted, r.panic))
+		return
+	}
+	memAfter := setOf(w.memBlobs())
+	// a failure of the underlying agent never discards a still-valid in-memory certificate (all fixtures here are in-window)
+	if faulted != "" || r.err != nil {
+		for b := range memSetBefore {
+			target := (real.Name == "Remove" && id != nil && string(id.blob) == b) || real.Name == "RemoveAll"
+			if memAfter[b] == 0 && !target {
+				add("fault:discards-memory-cert:"+real.Name, fmt.Sprintf("%s(%s) under fault %q (err=%v) discarded the valid in-memory certificate %s", op.Name, op.Arg, faulted, r.err, nameOf([]byte(b))))
+			}
+		}
+	}
+	switch real.Name {
+	case "AddHardCert", "AddHardCertAsAgentKey":
+		already := memSetBefore[string(id.blob)] > 0
+		if r.err == nil {
+			x.c.Nontrivial("hardcert|" + op.Arg + "|" + uaCanonBefore)
+			if id.cert == nil {
+				add("hardcert:accepts-non-certificate", fmt.Sprintf("AddHardCert(%s) accepted a plain key", op.Arg))
+			} else if !already && (!listedPlain[string(id.keyBlob)] || w.ua.Ring.Locked) {
+				add("hardcert:accepted-without-held-key", fmt.Sprintf("AddHardCert(%s) succeeded although the underlying agent does not list its public key (lists %s)", op.Arg, uaCanonBefore))
+			}
+			if memAfter[string(id.blob)] != 1 && id.cert != nil {
+				add("hardcert:not-stored", fmt.Sprintf("AddHardCert(%s) succeeded but the certificate is x%d in memory", op.Arg, memAfter[string(id.blob)]))
+			}
+			if already && fmt.Sprint(names(memBefore)) != fmt.Sprint(names(w.memBlobs())) {
+				add("hardcert:readd-not-noop", "adding a hardware certificate again changed the in-memory table")
+			}
+		} else if faulted == "" && id.cert != nil && listedPlain[string(id.keyBlob)] && !w.ua.Ring.Locked && !x.connDead() {
+			add("hardcert:refused-with-held-key", fmt.Sprintf("AddHardCert(%s) failed (%v) although the underlying agent lists its key", op.Arg, r.err))
+		}
+		if w.ua.Ring.Canon(nameOf) != uaCanonBefore {
+			add("hardcert:changes-underlying", "AddHardCert changed the underlying agent")
+		}
+	case "List", "Signers":
+		if r.err != nil {
+			if faulted == "" && !x.connDead() {
+				add("listing-error", fmt.Sprintf("%s failed without any fault: %v", op.Name, r.err))
+			}
+			break
+		}
+		var blobs [][]byte
+		if op.Name == "List" {
+			blobs = keyBlobs(r.keys)
+		} else {
+			blobs = signerBlobs(r.signers)
+		}
+		got, want := setOf(blobs), x.wantListing()
+		for b, k := range want {
+			if got[b] < k {
+				add("listing:loses-identity:"+op.Name, fmt.Sprintf("%s returns %s x%d, ground truth + memory says x%d (fault=%q)", op.Name, nameOf([]byte(b)), got[b], k, faulted))
+			}
+		}
+		for b, k := range got {
+			if want[b] < k {
+				add("listing:duplicates-or-invents:"+op.Name, fmt.Sprintf("%s returns %s x%d, ground truth + memory says x%d (fault=%q)", op.Name, nameOf([]byte(b)), k, want[b], faulted))
+			}
+		}
+	case "Sign":
+		inMem := memSetBefore[string(id.blob)] > 0
+		if r.err == nil {
+			if r.sig == nil {
+				add("sign:nil-signature", "Sign returned (nil, nil)")
+			} else if verr := id.pub.Verify(r.data, r.sig); verr != nil {
+				add("sign:signature-does-not-verify:"+kindY(id), fmt.Sprintf("Sign(%s) returned a signature that does not verify under the identity's key: %v (fault=%q)", op.Arg, verr, faulted))
+			}
+			if inMem {
+				x.c.Nontrivial("sign-hw|" + op.Arg)
+			}
+		} else if faulted == "" && !x.connDead() {
+			held := w.ua.Ring.Has(id.blob) && !(w.noUp && hidden(id))
+			if inMem && listedPlain[string(id.keyBlob)] {
+				held = true
+			}
+			if held && !w.ua.Ring.Locked {
+				add("sign:held-identity-fails:"+kindY(id), fmt.Sprintf("Sign(%s) failed (%v) although the identity is held", op.Arg, r.err))
+			}
+		}
+		if x.dOK && !inMem && op.Name == "Sign" && !(w.noUp && hidden(id)) {
+			_, derr := x.d.Sign(id.pub, r.data)
+			if errClass(derr) != errClass(r.err) {
+				add("passthrough:sign-differs", fmt.Sprintf("Sign(%s) through the shim: %v; directly on the underlying agent: %v", op.Arg, r.err, derr))
+			}
+		}
+	case "Add":
+		if x.dOK {
+			derr := x.d.Add(agent.AddedKey{PrivateKey: id.priv, Certificate: id.cert, Comment: "c-" + id.name})
+			if errClass(derr) != errClass(r.err) {
+				add("passthrough:add-differs", fmt.Sprintf("Add(%s) through the shim: %v; directly: %v", op.Arg, r.err, derr))
+			}
+		}
+		if r.err == nil && !w.ua.Ring.Has(id.blob) {
+			add("add:success-but-absent", fmt.Sprintf("Add(%s) reported success (fault=%q) but the underlying agent does not hold it", op.Arg, faulted))
+		}
+	case "Remove":
+		inMem := memSetBefore[string(id.blob)] > 0
+		if x.dOK {
+			derr := x.d.Remove(id.pub)
+			if !inMem && errClass(derr) != errClass(r.err) {
+				add("passthrough:remove-differs", fmt.Sprintf("Remove(%s) through the shim: %v; directly: %v", op.Arg, r.err, derr))
+			}
+		}
+		if r.err == nil {
+			if memAfter[string(id.blob)] > 0 {
+				add("remove:still-in-memory", fmt.Sprintf("Remove(%s) succeeded but the certificate is still in memory", op.Arg))
+			}
+			if faulted == "" && w.ua.Ring.Has(id.blob) {
+				add("remove:still-in-underlying", fmt.Sprintf("Remove(%s) succeeded but the underlying agent still holds it", op.Arg))
+			}
+			if inMem {
+				x.c.Nontrivial("remove-hw|" + op.Arg)
+			}
+		} else if inMem && faulted == "" && !x.connDead() && !w.ua.Ring.Locked {
+			add("remove:hardware-cert-reports-failure", fmt.Sprintf("Remove(%s) of a held in-memory hardware certificate reported failure: %v", op.Arg, r.err))
+		}
+	case "RemoveAll":
+		if x.dOK {
+			x.d.RemoveAll()
+		}
+		if r.err == nil {
+			if len(memAfter) != 0 {
+				add("removeall:memory-left", "RemoveAll succeeded but in-memory certificates remain")
+			}
+			if faulted == "" && len(w.ua.Ring.Keys) != 0 {
+				add("removeall:underlying-left", "RemoveAll succeeded but the underlying agent still holds identities")
+			}
+		}
+	}
+	if x.dOK && w.ua.Ring.Canon(nameOf) != x.d.Canon(nameOf) {
+		add("passthrough:ground-truth-differs:"+real.Name, fmt.Sprintf("after %s(%s) the underlying agent holds %s; the same calls made directly give %s", op.Name, op.Arg, w.ua.Ring.Canon(nameOf), x.d.Canon(nameOf)))
+	}
+	return
+}
+
+func (x *c10World) applyForward(op bfs.Op, memSetBefore map[string]int) (fs []bfs.Finding) {
+	add := func(key, desc string) { fs = append(fs, bfs.Finding{Key: "C10:" + key, Desc: desc}) }
+	w := x.w
+	{
+		body := c10Bodies[op.Arg]
+		logBefore := len(w.ua.Log)
+		var resp []byte
+		var ferr error
+		var m0, m1 runtime.MemStats
+		runtime.ReadMemStats(&m0)
+		pn := ev.Guard(func() { resp, ferr = w.shim.Forward(body) })
+		runtime.ReadMemStats(&m1)
+		if grew := m1.TotalAlloc - m0.TotalAlloc; grew > uint64(len(body))*4+(1<<20) {
+			add("forward:allocates-for-oversized-frame", fmt.Sprintf("Forward allocated %d bytes while relaying a %d-byte request (reply length prefix above 16 MiB)", grew, len(body)))
+		}
+		if p := pn; p != "" {
+			add("panic:"+ev.PanicSite(p), "Forward crashed:\n"+p)
+			return
+		}
+		f2 := ""
+		var delivered [][]byte
+		for _, q := range w.ua.Log[logBefore:] {
+			if q.Fault != "" {
+				f2 = q.Fault
+			}
+			delivered = append(delivered, q.Body)
+		}
+		if f2 != "" {
+			x.dOK = false
+		}
+		if ferr == nil {
+			x.c.Nontrivial("forward|" + op.Arg + "|" + f2)
+			if len(delivered) != 1 || !bytes.Equal(delivered[0], body) {
+				add("forward:request-altered", fmt.Sprintf("Forward(%s, %d bytes) delivered %d frame(s) to the underlying agent, not exactly the request", op.Arg, len(body), len(delivered)))
+			}
+			var want []byte
+			switch f2 {
+			case "":
+				want, _ = c10Raw(body)
+			case uagent.FaultFailure:
+				want = []byte{5}
+			case uagent.FaultEmpty:
+				want = []byte{}
+			case uagent.FaultUnknown:
+				want = []byte{0xee, 1, 2, 3}
+			case uagent.FaultTruncated:
+				want = []byte{12, 0}
+			default:
+				add("forward:success-without-reply", fmt.Sprintf("Forward succeeded although the underlying agent %s", f2))
+			}
+			if want != nil && !bytes.Equal(resp, want) {
+				add("forward:reply-altered", fmt.Sprintf("Forward(%s) returned %d bytes, the underlying agent sent %d bytes", op.Arg, len(resp), len(want)))
+			}
+		} else if f2 == "" && !x.connDead() {
+			add("forward:fails-without-fault", fmt.Sprintf("Forward(%s) failed: %v", op.Arg, ferr))
+		}
+		x.c.Outcome(fmt.Sprintf("Forward/fault=%s/%s", f2, errClass(ferr)))
+		if f2 != "" {
+			x.c.Nontrivial(fmt.Sprintf("fault|%s|Forward|%s", f2, op.Arg))
+			x.c.Count("operations_hit_by_a_fault", 1)
+		}
+		memAfter := setOf(w.memBlobs())
+		for b := range memSetBefore {
+			if memAfter[b] == 0 {
+				add("fault:discards-memory-cert:Forward", "Forward discarded the in-memory certificate "+nameOf([]byte(b)))
+			}
+		}
+	}
+	return
+}
+
+// connDead: the peer dropped the connection earlier in this history (every later request legitimately fails).
+func (x *c10World) connDead() bool {
+	for _, q := range x.w.ua.Log {
+		if q.Fault == uagent.FaultClose || q.Fault == uagent.FaultOversized || q.Fault == uagent.FaultHuge {
+			return true
+		}
+	}
+	return false
+}
+
+func checkC10(c *ev.Ctx) {
+	setupFixtures()
+	c.Rule("E1 BFS over histories of the real shimagent.Server (constructed by shimagent.New through the dial seam): AddHardCert(6 incl. plain key, absent key, wire-form key), Add(3), Remove(4), RemoveAll, List, Signers, Sign(7 incl. RSA/ECDSA/Ed25519 and via Signers()), Forward(5 raw bodies, 0..64KiB), and a fault plan as part of the history: at most one (thorough: two) deviation {failure, close, empty, unknown type, truncated, oversized 16MiB+1, huge 2^32-16} at underlying request offset 0/1 (thorough 2) from any point, plus construction faults at request 0 in no-upstream mode; roots = both modes x 2 initial contents + 6 construction-fault roots. non-trivial = operation hit by a fault, or hardware-certificate add/sign/remove, or forward; distinct by (fault, operation, offset)")
+	c.Assume("well-formed replies of the wrong message type are excluded (they make x/crypto's agent client panic by design)", "pass-through is compared with the same calls made directly on a twin keyring until the first fault is consumed")
+	var roots []string
+	for _, mode := range []string{"up", "noup"} {
+		roots = append(roots, mode+":K1,c.cur,Krsa", mode+":K1,K2,y.touch")
+	}
+	for _, k := range uagent.AllFaults {
+		roots = append(roots, "noup:K1,c.cur:fault="+k)
+	}
+	depth := 3
+	if c.Thorough() {
+		depth = 4
+	}
+	runBFS(c, func(root string) bfs.World { return newC10World(c, root) }, roots, depth, 0)
+}
